@@ -2,6 +2,10 @@
 //   csvm <bias> <shrink> <C> <eps> <maxit> <n> <d> x.. y..            (integer points, LINEAR kernel; compared
 //        bit-for-bit with the Lean trainer model, lean/Driver/C07.lean)
 //   cfg  <kernel lin|rbf> <gamma> <bias> <shrink> <precompute> <cache> <C> <eps> <n> <d> x.. y..   (oracle only)
+//   csvm2 <bias> <shrink> <Cn> <Cp> <eps> <maxit> <n> <d> x.. y.. w..   class-specific C + per-example weights (cold start)
+//   esvr  <shrink> <C> <tube> <eps> <maxit> <n> <d> x.. y..             EpsilonSvmTrainer (coefficients, stop, iterations)
+//   ocsvm <shrink> <nu> <eps> <maxit> <n> <d> x..                       OneClassSvmTrainer (coefficients, offset, stop, its)
+//        (these three: integer points, LINEAR kernel, compared bit-for-bit with the Lean trainer model as well)
 //   trn  <kind c|e|o> <kernel lin|rbf> <gamma> <bias> <shrink> <precompute> <cache> <eps> <maxit> <warmit> <warmfac>
 //        <weighted> <p1> <p2> <n> <d> x.. y.. w..      (oracle only; see trainGeneral below)
 //        kind c: CSvmTrainer with class-specific C (p1 = C of label 0, p2 = C of label 1; the one-C constructor is used
@@ -277,6 +281,29 @@ int main(){
 		}else if(t[0] == "cfg" && t.size() >= 11){
 			kern = t[1]; gamma = untok(t[2]); bias = t[3] == "1"; shrink = t[4] == "1"; pre = t[5] == "1"; cache = std::stoul(t[6]);
 			C = untok(t[7]); eps = untok(t[8]); n = std::stoul(t[9]); d = std::stoul(t[10]); at = 11;
+		}else if((t[0] == "csvm2" && t.size() >= 9) || (t[0] == "esvr" && t.size() >= 8) || (t[0] == "ocsvm" && t.size() >= 7)){
+			// model-comparison ops for the widened trainers (linear kernel, default cache, cold start); no oracle suffix:
+			// the oracle runs on the `trn` cross
+			GenCfg c; c.kern = "lin"; c.gamma = 1; c.pre = false; c.cache = 0; c.warmit = 0; c.warmfac = 1; c.weighted = false; c.bias = true;
+			std::size_t p;
+			if(t[0] == "csvm2"){ c.kind = "c"; c.bias = t[1] == "1"; c.shrink = t[2] == "1"; c.p1 = untok(t[3]); c.p2 = untok(t[4]); c.eps = untok(t[5]); c.maxit = std::stoull(t[6]); n = std::stoul(t[7]); d = std::stoul(t[8]); p = 9; c.weighted = true; }
+			else if(t[0] == "esvr"){ c.kind = "e"; c.shrink = t[1] == "1"; c.p1 = untok(t[2]); c.p2 = untok(t[3]); c.eps = untok(t[4]); c.maxit = std::stoull(t[5]); n = std::stoul(t[6]); d = std::stoul(t[7]); p = 8; }
+			else{ c.kind = "o"; c.shrink = t[1] == "1"; c.p1 = untok(t[2]); c.p2 = 0; c.eps = untok(t[3]); c.maxit = std::stoull(t[4]); n = std::stoul(t[5]); d = std::stoul(t[6]); p = 7; }
+			std::size_t extra = c.kind == "c" ? 2*n : (c.kind == "e" ? n : 0);
+			if(t.size() != p + n*d + extra){ std::cout << "bad-op\n"; continue; }
+			c.xs.assign(n, RealVector(d));
+			for(std::size_t i = 0; i != n; ++i) for(std::size_t k = 0; k != d; ++k) c.xs[i](k) = untok(t[p + i*d + k]);
+			for(std::size_t i = 0; i != n; ++i) c.ys.push_back(c.kind == "c" ? (t[p + n*d + i] == "1" ? 1.0 : 0.0) : (c.kind == "e" ? untok(t[p + n*d + i]) : 0.0));
+			for(std::size_t i = 0; i != n; ++i) c.ws.push_back(c.kind == "c" ? untok(t[p + n*d + n + i]) : 1.0);
+			std::ostringstream os;
+			try{
+				Result r = trainGeneral(c);
+				os << "acc=" << (r.acc ? 1 : 0) << " it=" << r.it << " alpha=[";
+				for(std::size_t i = 0; i != n; ++i){ if(i) os << ","; os << tok(r.alpha[i]); }
+				os << "] b=" << (c.kind == "e" ? std::string("skip") : tok(r.b));
+			}catch(std::exception const& e){ os << "exception " << e.what(); }
+			std::cout << os.str() << "\n";
+			continue;
 		}else if(t[0] == "trn" && t.size() >= 17){
 			GenCfg c;
 			c.kind = t[1]; c.kern = t[2]; c.gamma = untok(t[3]); c.bias = t[4] == "1"; c.shrink = t[5] == "1"; c.pre = t[6] == "1";
